@@ -1500,6 +1500,22 @@ def not_contains(a, b):
     return not operator.contains(a, b)
 
 
+def not_lt(a, b):
+    return not operator.lt(a, b)
+
+
+def not_le(a, b):
+    return not operator.le(a, b)
+
+
+def not_gt(a, b):
+    return not operator.gt(a, b)
+
+
+def not_ge(a, b):
+    return not operator.ge(a, b)
+
+
 @dataclass(eq=False)
 class Comparator(BinaryOperator):
     """
@@ -1515,6 +1531,13 @@ class Comparator(BinaryOperator):
                                                     operator.le: "<=",
                                                     operator.gt: ">",
                                                     operator.ge: ">="}
+    negated_operation_map: ClassVar[Dict[Any, Any]] = {operator.lt: not_lt, not_lt: operator.lt,
+                                                       operator.le: not_le, not_le: operator.le,
+                                                       operator.gt: not_gt, not_gt: operator.gt,
+                                                       operator.ge: not_ge, not_ge: operator.ge,
+                                                       operator.eq: operator.ne, operator.ne: operator.eq,
+                                                       operator.contains: not_contains,
+                                                       not_contains: operator.contains}
 
     @property
     def _invert_(self):
@@ -1526,25 +1549,12 @@ class Comparator(BinaryOperator):
             return
         self._invert__ = value
         prev_operation = self.operation
-        match self.operation:
-            case operator.lt:
-                self.operation = operator.ge
-            case operator.gt:
-                self.operation = operator.le
-            case operator.le:
-                self.operation = operator.gt
-            case operator.ge:
-                self.operation = operator.lt
-            case operator.eq:
-                self.operation = operator.ne
-            case operator.ne:
-                self.operation = operator.eq
-            case operator.contains:
-                self.operation = not_contains
-            case _ if self.operation is not_contains:
-                self.operation = operator.contains
-            case _:
-                raise ValueError(f"Unsupported operation: {self.operation.__name__}")
+        # The negation of an ordering comparison is "not (a < b)", which is a >= b only for totally ordered values
+        # (sets and NaN are not).
+        if self.operation in self.negated_operation_map:
+            self.operation = self.negated_operation_map[self.operation]
+        else:
+            raise ValueError(f"Unsupported operation: {self.operation.__name__}")
         self._node_.name = self._node_.name.replace(prev_operation.__name__, self.operation.__name__)
 
     @property
